@@ -1067,6 +1067,11 @@ func (e *Engine) genericDataStub(name string, fn *ssa.Function, args []Value, g 
 		if !ok || cloneFollow[named.Obj().Name()] {
 			return nil, false
 		}
+		if e.params["real_clone"] == 1 {
+			// run the type's own Clone body; only its serialisation helpers (core.cloneSSZMarshaler / cloneJSONMarshaler)
+			// are deep-copy stubs: a Clone that is written as a shallow copy shows as shared memory
+			return nil, false
+		}
 		e.StubsUsed["Clone(structural deep copy): "+recvT.String()]++
 		cp := e.deepCopy(args[0], 0)
 		var res Value = cp
